@@ -12,13 +12,19 @@
    parameters) is translated into DataIR programs (Model/DataIR.v, Model/GoData.v, regenerated every run); the
    [data_*] / [drun_*] theorems say that running them returns exactly the model's nested data (Model/Data.v,
    Model/Fill.v) and panics exactly where the model says None.
+   The thin WRAPPERS of cputensor (shape helper + element generator + initWith: transpose, reshape, broadcast, slice,
+   patch, dot, matMul, reduceDimUsingFunc, constTensor, eyeMatrix) and the five cases of initTensorFromData are
+   translated too (Model/GoWrap.v); their calls of the functions above go through the oracle Model/DataExt.v, which
+   maps each callee to the model function the theorems above prove it to be; the [*_wrapper_*] theorems say the
+   wrapper returns the model tensor (and panics where the model says None) and [initTensorFromData_*] that every case
+   returns (shapeOf x, x) on data accepted by the validator.
    An edit of one of these Go functions changes GoFns.v / GoData.v and breaks the theorem unless it computes the same thing.
    Closed under the global context. *)
 From Coq Require Import String List ZArith Bool Arith.
 From Qeep Require Import Model.Scalar Model.Nd Model.Fill Model.Valid Model.GoIR Model.DataIR.
-From Qeep Require Model.Data Model.Api Model.GoFns Model.GoData.
+From Qeep Require Model.Data Model.Api Model.GoFns Model.GoData Model.DataExt Model.GoWrap.
 From Qeep Require Import Proofs.GoIRP.
-From Qeep Require Proofs.GoValidAtP Proofs.GoValidP1 Proofs.GoValidP2 Proofs.GoValidP3 Proofs.GoDimsP1 Proofs.GoDimsP2 Proofs.GoGenP1 Proofs.GoGenP2 Proofs.GoGenP3 Proofs.GoMatMulShapeP Proofs.DataAtP Proofs.DataSliceP Proofs.DataPatchP Proofs.DataApplyP Proofs.DataReduceP Proofs.DataFillP Proofs.DataLinalgP Proofs.DataConcatP.
+From Qeep Require Proofs.GoValidAtP Proofs.GoValidP1 Proofs.GoValidP2 Proofs.GoValidP3 Proofs.GoDimsP1 Proofs.GoDimsP2 Proofs.GoGenP1 Proofs.GoGenP2 Proofs.GoGenP3 Proofs.GoMatMulShapeP Proofs.DataAtP Proofs.DataSliceP Proofs.DataPatchP Proofs.DataApplyP Proofs.DataReduceP Proofs.DataFillP Proofs.DataLinalgP Proofs.DataConcatP Proofs.DataWrapP Proofs.DataFromDataP.
 Import ListNotations.
 Local Open Scope string_scope.
 
@@ -532,3 +538,220 @@ Theorem fillCat_closure :
     [dnats ds; dv; DL (map emb seeds); DI (Z.of_nat depth0)] s g = CRet St [emb r] s g.
 Proof. exact @DataConcatP.fillCat_call. Qed.
 Print Assumptions fillCat_closure.
+
+Theorem slice_wrapper_is_slice :
+  forall (A : Type) (SA : Scalar A) (fapp : string -> list A -> option A) (red : Data.reducer)
+    (fuel depth : nat) (ds : list nat) (x : nd A) (index : list (nat * nat)),
+  Forall (fun r : nat * nat => fst r <= snd r) (Data.completeIndex index ds) ->
+  DataWrapP.returns
+    (drun fapp unit (DataExt.dext red) GoWrap.w_slice fuel depth [dnats ds; emb x; dranges index] tt)
+    (Data.slice {| dims := ds; data := x |} index).
+Proof. exact @DataWrapP.w_slice_run. Qed.
+Print Assumptions slice_wrapper_is_slice.
+
+Theorem patch_wrapper_is_patch :
+  forall (A : Type) (SA : Scalar A) (fapp : string -> list A -> option A) (red : Data.reducer)
+    (fuel depth : nat) (ds : list nat) (x : nd A) (index : list (nat * nat)) 
+    (uds : list nat) (ux : nd A),
+  DataWrapP.returns
+    (drun fapp unit (DataExt.dext red) GoWrap.w_patch fuel depth
+       [dnats ds; emb x; dranges index; dnats uds; emb ux] tt)
+    (Data.patch {| dims := ds; data := x |} index {| dims := uds; data := ux |}).
+Proof. exact @DataWrapP.w_patch_run. Qed.
+Print Assumptions patch_wrapper_is_patch.
+
+Theorem reshape_wrapper_is_reshape :
+  forall (A : Type) (SA : Scalar A) (fapp : string -> list A -> option A) (red : Data.reducer)
+    (fuel depth : nat) (ds : list nat) (x : nd A) (shape : list nat),
+  DataWrapP.returns
+    (drun fapp unit (DataExt.dext red) GoWrap.w_reshape fuel depth [dnats ds; emb x; dnats shape] tt)
+    (Data.reshape {| dims := ds; data := x |} shape).
+Proof. exact @DataWrapP.w_reshape_run. Qed.
+Print Assumptions reshape_wrapper_is_reshape.
+
+Theorem unSqueeze_wrapper_is_unSqueeze :
+  forall (A : Type) (SA : Scalar A) (fapp : string -> list A -> option A) (red : Data.reducer)
+    (fuel depth : nat) (ds : list nat) (x : nd A) (dim : nat),
+  dim <= Datatypes.length ds ->
+  DataWrapP.returns
+    (drun fapp unit (DataExt.dext red) GoWrap.w_unSqueeze fuel depth
+       [dnats ds; emb x; DI (Z.of_nat dim)] tt) (Data.unSqueeze {| dims := ds; data := x |} dim).
+Proof. exact @DataWrapP.w_unSqueeze_run. Qed.
+Print Assumptions unSqueeze_wrapper_is_unSqueeze.
+
+Theorem squeeze_wrapper_is_squeeze :
+  forall (A : Type) (SA : Scalar A) (fapp : string -> list A -> option A) (red : Data.reducer)
+    (fuel depth : nat) (ds : list nat) (x : nd A) (dim : nat),
+  dim <= Datatypes.length ds ->
+  DataWrapP.returns
+    (drun fapp unit (DataExt.dext red) GoWrap.w_squeeze fuel depth [dnats ds; emb x; DI (Z.of_nat dim)]
+       tt) (Data.squeeze {| dims := ds; data := x |} dim).
+Proof. exact @DataWrapP.w_squeeze_run. Qed.
+Print Assumptions squeeze_wrapper_is_squeeze.
+
+Theorem flatten_wrapper_is_flatten :
+  forall (A : Type) (SA : Scalar A) (fapp : string -> list A -> option A) (red : Data.reducer)
+    (fuel depth : nat) (ds : list nat) (x : nd A) (dim : nat),
+  dim <= Datatypes.length ds ->
+  DataWrapP.returns
+    (drun fapp unit (DataExt.dext red) GoWrap.w_flatten fuel depth [dnats ds; emb x; DI (Z.of_nat dim)]
+       tt) (Data.flatten {| dims := ds; data := x |} dim).
+Proof. exact @DataWrapP.w_flatten_run. Qed.
+Print Assumptions flatten_wrapper_is_flatten.
+
+Theorem broadcast_wrapper_is_broadcast :
+  forall (A : Type) (SA : Scalar A) (fapp : string -> list A -> option A) (red : Data.reducer)
+    (fuel depth : nat) (ds : list nat) (x : nd A) (shape : list nat),
+  DataWrapP.returns
+    (drun fapp unit (DataExt.dext red) GoWrap.w_broadcast fuel depth [dnats ds; emb x; dnats shape] tt)
+    (Data.broadcast {| dims := ds; data := x |} shape).
+Proof. exact @DataWrapP.w_broadcast_run. Qed.
+Print Assumptions broadcast_wrapper_is_broadcast.
+
+Theorem constTensor_wrapper_is_constTensor :
+  forall (A : Type) (SA : Scalar A) (fapp : string -> list A -> option A) (red : Data.reducer)
+    (fuel depth : nat) (v : A) (ds : list nat),
+  DataWrapP.returns
+    (drun fapp unit (DataExt.dext red) GoWrap.w_constTensor fuel depth [DF v; dnats ds] tt)
+    (Data.constTensor v ds).
+Proof. exact @DataWrapP.w_constTensor_run. Qed.
+Print Assumptions constTensor_wrapper_is_constTensor.
+
+Theorem eyeMatrix_wrapper_is_eyeMatrix :
+  forall (A : Type) (SA : Scalar A) (fapp : string -> list A -> option A) (red : Data.reducer)
+    (fuel depth n : nat),
+  DataWrapP.returns
+    (drun fapp unit (DataExt.dext red) GoWrap.w_eyeMatrix fuel depth [DI (Z.of_nat n)] tt)
+    (Data.eyeMatrix n).
+Proof. exact @DataWrapP.w_eyeMatrix_run. Qed.
+Print Assumptions eyeMatrix_wrapper_is_eyeMatrix.
+
+Theorem initTensorFromData_scalar :
+  forall (A : Type) (SA : Scalar A) (fapp : string -> list A -> option A) (St : Type)
+    (ext : string -> list dval -> St -> option (list dval * St)) (fuel depth : nat) 
+    (s : St) (x : nd A),
+  DataFromDataP.typed 0 x ->
+  dataUnity x = true ->
+  exists (t : tensor A) (g l : denv),
+    Data.initTensorFromData x = Some t /\
+    dims t = Data.shapeOf x /\
+    data t = x /\
+    drun fapp St ext GoWrap.w_initTensorFromData_rank0 fuel depth [emb x] s =
+    DRet St [dnats (dims t); emb (data t)] s g l.
+Proof. exact @DataFromDataP.fromData_rank0. Qed.
+Print Assumptions initTensorFromData_scalar.
+
+Theorem initTensorFromData_rank1 :
+  forall (A : Type) (SA : Scalar A) (fapp : string -> list A -> option A) (St : Type)
+    (ext : string -> list dval -> St -> option (list dval * St)) (fuel depth : nat) 
+    (s : St) (x : nd A),
+  DataFromDataP.typed 1 x ->
+  dataUnity x = true ->
+  exists (t : tensor A) (g l : denv),
+    Data.initTensorFromData x = Some t /\
+    dims t = Data.shapeOf x /\
+    data t = x /\
+    drun fapp St ext GoWrap.w_initTensorFromData_rank1 fuel depth [emb x] s =
+    DRet St [dnats (dims t); emb (data t)] s g l.
+Proof. exact @DataFromDataP.fromData_rank1. Qed.
+Print Assumptions initTensorFromData_rank1.
+
+Theorem initTensorFromData_rank2 :
+  forall (A : Type) (SA : Scalar A) (fapp : string -> list A -> option A) (St : Type)
+    (ext : string -> list dval -> St -> option (list dval * St)) (fuel depth : nat) 
+    (s : St) (x : nd A),
+  DataFromDataP.typed 2 x ->
+  dataUnity x = true ->
+  exists (t : tensor A) (g l : denv),
+    Data.initTensorFromData x = Some t /\
+    dims t = Data.shapeOf x /\
+    data t = x /\
+    drun fapp St ext GoWrap.w_initTensorFromData_rank2 fuel depth [emb x] s =
+    DRet St [dnats (dims t); emb (data t)] s g l.
+Proof. exact @DataFromDataP.fromData_rank2. Qed.
+Print Assumptions initTensorFromData_rank2.
+
+Theorem initTensorFromData_rank3 :
+  forall (A : Type) (SA : Scalar A) (fapp : string -> list A -> option A) (St : Type)
+    (ext : string -> list dval -> St -> option (list dval * St)) (fuel depth : nat) 
+    (s : St) (x : nd A),
+  DataFromDataP.typed 3 x ->
+  dataUnity x = true ->
+  exists (t : tensor A) (g l : denv),
+    Data.initTensorFromData x = Some t /\
+    dims t = Data.shapeOf x /\
+    data t = x /\
+    drun fapp St ext GoWrap.w_initTensorFromData_rank3 fuel depth [emb x] s =
+    DRet St [dnats (dims t); emb (data t)] s g l.
+Proof. exact @DataFromDataP.fromData_rank3. Qed.
+Print Assumptions initTensorFromData_rank3.
+
+Theorem initTensorFromData_rank4 :
+  forall (A : Type) (SA : Scalar A) (fapp : string -> list A -> option A) (St : Type)
+    (ext : string -> list dval -> St -> option (list dval * St)) (fuel depth : nat) 
+    (s : St) (x : nd A),
+  DataFromDataP.typed 4 x ->
+  dataUnity x = true ->
+  exists (t : tensor A) (g l : denv),
+    Data.initTensorFromData x = Some t /\
+    dims t = Data.shapeOf x /\
+    data t = x /\
+    drun fapp St ext GoWrap.w_initTensorFromData_rank4 fuel depth [emb x] s =
+    DRet St [dnats (dims t); emb (data t)] s g l.
+Proof. exact @DataFromDataP.fromData_rank4. Qed.
+Print Assumptions initTensorFromData_rank4.
+
+Theorem initTensorFromData_rank4_on_rectangular_data :
+  forall (A : Type) (SA : Scalar A) (fapp : string -> list A -> option A) (St : Type)
+    (ext : string -> list dval -> St -> option (list dval * St)) (fuel depth : nat) 
+    (s : St) (x : nd A) (n0 n1 n2 n3 : nat),
+  wfnd [n0; n1; n2; n3] x ->
+  0 < n0 ->
+  0 < n1 ->
+  0 < n2 ->
+  exists g l : denv,
+    drun fapp St ext GoWrap.w_initTensorFromData_rank4 fuel depth [emb x] s =
+    DRet St [dnats [n0; n1; n2; n3]; emb x] s g l.
+Proof. exact @DataFromDataP.fromData_shaped4. Qed.
+Print Assumptions initTensorFromData_rank4_on_rectangular_data.
+
+Theorem initTensorFromData_guard_gives_rectangular_data :
+  forall (A : Type) (r : nat) (x : nd A),
+  DataFromDataP.typed r x ->
+  dataUnity x = true ->
+  wfnd (Data.shapeOf x) x /\
+  Datatypes.length (Data.shapeOf x) = r /\ Forall (fun d : nat => 0 < d) (Data.shapeOf x).
+Proof. exact @DataFromDataP.unity_wf. Qed.
+Print Assumptions initTensorFromData_guard_gives_rectangular_data.
+
+Theorem initTensorFromData_copies_rectangular_data_unchanged :
+  forall (A : Type) (ds : list nat) (x : nd A), wfnd ds x -> Data.copyData ds x = Some x.
+Proof. exact @DataFromDataP.copyData_id. Qed.
+Print Assumptions initTensorFromData_copies_rectangular_data_unchanged.
+
+Theorem initTensorFromData_empty_outer_slice_panics :
+  forall (A : Type) (SA : Scalar A) (fapp : string -> list A -> option A) (St : Type)
+    (ext : string -> list (@dval A) -> St -> option (list (@dval A) * St)) (fuel depth : nat) 
+    (s : St),
+  @dataUnity A (@Vec A []) = false /\
+  @Data.initTensorFromData A (@Vec A []) = @Some (tensor A) {| dims := [0]; data := @Vec A [] |} /\
+  @drun A SA fapp St ext GoWrap.w_initTensorFromData_rank2 fuel depth [@emb A (@Vec A [])] s =
+  @DPanic A St /\
+  @drun A SA fapp St ext GoWrap.w_initTensorFromData_rank3 fuel depth [@emb A (@Vec A [])] s =
+  @DPanic A St /\
+  @drun A SA fapp St ext GoWrap.w_initTensorFromData_rank4 fuel depth [@emb A (@Vec A [])] s =
+  @DPanic A St.
+Proof. exact @DataFromDataP.fromData_empty_outer. Qed.
+Print Assumptions initTensorFromData_empty_outer_slice_panics.
+
+Theorem initTensorFromData_longer_row_panics :
+  forall (A : Type) (SA : Scalar A) (fapp : string -> list A -> option A) (St : Type)
+    (ext : string -> list dval -> St -> option (list dval * St)) (fuel depth : nat) 
+    (s : St) (c0 rows c : list (nd A)),
+  DataFromDataP.typed 2 (Vec (Vec c0 :: rows)) ->
+  In (Vec c) rows ->
+  Datatypes.length c0 < Datatypes.length c ->
+  drun fapp St ext GoWrap.w_initTensorFromData_rank2 fuel depth [emb (Vec (Vec c0 :: rows))] s =
+  DPanic St.
+Proof. exact @DataFromDataP.fromData_rank2_long_row. Qed.
+Print Assumptions initTensorFromData_longer_row_panics.
